@@ -75,7 +75,19 @@ def audit(ag, sag, cm, ref=None):
             K.add_node(n, z=d["atomic_num"])
         for u, v, d in G.edges(data=True):
             K.add_edge(u, v, o=int(d["bond_type"]))
-        same = H.number_of_nodes() == K.number_of_nodes() and H.number_of_edges() == K.number_of_edges() and nx.is_isomorphic(H, K, node_match=lambda x, y: x["z"] == y["z"], edge_match=lambda x, y: x["o"] == y["o"])
+        same = H.number_of_nodes() == K.number_of_nodes() and H.number_of_edges() == K.number_of_edges()
+        if same:
+            # the library numbers the atoms of the molecule like the nodes of the graph: try that mapping first; a general isomorphism search (VF2 is
+            # exponential on large symmetric molecules) only if it does not fit, under its own watchdog -- a search that does not finish is undecided
+            order = {n: i for i, n in enumerate(sorted(K.nodes()))}
+            direct = all(H.nodes[order[n]]["z"] == d["z"] for n, d in K.nodes(data=True)) and all(H.has_edge(order[u], order[v]) and H[order[u]][order[v]]["o"] == d["o"] for u, v, d in K.edges(data=True))
+            if not direct:
+                try:
+                    with time_limit(20):
+                        same = nx.is_isomorphic(H, K, node_match=lambda x, y: x["z"] == y["z"], edge_match=lambda x, y: x["o"] == y["o"])
+                except StepTimeout:
+                    facts["isomorphism_undecided"] = True
+                    same = True
         if not same:
             out.append({"cls": "c18.to_mol-is-not-the-generated-graph", "msg": f"to_mol() returned {facts['smiles']} ({H.number_of_nodes()} atoms, {H.number_of_edges()} bonds), the generated graph has {K.number_of_nodes()} nodes and {K.number_of_edges()} edges and is not isomorphic to it"})
     except Exception as exc:
@@ -295,6 +307,8 @@ def run_case(case):
         cnt["residues_audited"] += facts.get("residues", 0)
         if facts.get("inconclusive"):
             cnt["partition_search_budget"] += 1
+        if facts.get("isomorphism_undecided"):
+            cnt["to_mol_isomorphism_undecided"] += 1
         if facts.get("partition_from_search"):
             cnt["partition_from_search"] += 1
         for v in vs:
